@@ -40,6 +40,60 @@ class SchedConfig:
 
 SCHED = SchedConfig()
 
+# --- process-local state of worker processes ---------------------------------------------------
+# joblib's (loky) workers are separate, *reused* processes: mutable module-level state (caches)
+# written inside a task lives in that worker only, starts from the import-time state, is not seen
+# by the parent, and survives from one Parallel call to the next.  Threads share module globals, so
+# the simulator swaps the mutable globals of the repository's modules at every baton hand-over:
+# while worker k runs it sees its own copies (deep copies of the import-time snapshot taken by
+# install()), and the parent's objects are put back when it parks.
+_WATCHED = []          # module objects
+_IMPORT_STATE = {}     # (module name, global name) -> import-time deep copy
+_WORKER_STATE = {}     # worker idx -> {(module name, global name): private object}; lives as long as the process
+
+
+def _snapshot_import_state(modules):
+    for m in modules:
+        if m in _WATCHED:
+            continue
+        _WATCHED.append(m)
+        for name, v in list(m.__dict__.items()):
+            if name.startswith("__"):
+                continue
+            if isinstance(v, (dict, list, set)) and not isinstance(v, type):
+                try:
+                    _IMPORT_STATE[(m.__name__, name)] = copy.deepcopy(v)
+                except Exception:
+                    pass
+
+
+def _enter_worker(idx):
+    """Install worker idx's private module state; returns what to restore."""
+    st = _WORKER_STATE.setdefault(idx, {})
+    saved = []
+    for m in _WATCHED:
+        d = m.__dict__
+        # globals created at run time by the parent (after import) do not exist in a worker unless it made them
+        for name, v in list(d.items()):
+            if name.startswith("__") or not isinstance(v, (dict, list, set)) or isinstance(v, type):
+                continue
+            key = (m.__name__, name)
+            if key not in st:
+                if key in _IMPORT_STATE:
+                    st[key] = copy.deepcopy(_IMPORT_STATE[key])
+                else:
+                    st[key] = type(v)()
+            saved.append((d, name, v, key))
+            d[name] = st[key]
+    return saved
+
+
+def _leave_worker(idx, saved):
+    st = _WORKER_STATE.setdefault(idx, {})
+    for d, name, parent_obj, key in saved:
+        st[key] = d.get(name, st.get(key))     # the worker may have rebound the global
+        d[name] = parent_obj
+
 
 class _Abort(BaseException):
     pass
@@ -127,6 +181,7 @@ class _Worker:
         par = self.par
         self.ev.wait()
         self.ev.clear()
+        self._saved = _enter_worker(self.idx)
         try:
             while True:
                 if par.abort:
@@ -173,6 +228,7 @@ class _Worker:
                 if par.abort:
                     break
         finally:
+            _leave_worker(self.idx, self._saved)
             self.state = "done"
             self.why = "exit"
             par.main_ev.set()
@@ -194,9 +250,11 @@ class _Worker:
 
     def _handback(self, why):
         self.why = why
+        _leave_worker(self.idx, self._saved)
         self.par.main_ev.set()
         self.ev.wait()
         self.ev.clear()
+        self._saved = _enter_worker(self.idx)
         SCHED.current = (self.idx, self.task)
 
 
@@ -214,6 +272,16 @@ class SimParallel:
         self.main_ev = threading.Event()
         n = max(1, min(self.n_jobs, len(tasks)))
         SCHED.n_workers_used.append(n)
+        if self.n_jobs == 1:
+            # joblib runs n_jobs=1 sequentially in the calling process: no worker, the caller's state
+            out = []
+            for ti, (fn, a, k) in enumerate(tasks):
+                SCHED.task_log.append((ti, -1))
+                SCHED.current = (-1, ti)
+                a2 = tuple(RecordingMemmap(x) if (isinstance(x, np.memmap) and SCHED.record_memmap) else x for x in a)
+                out.append(fn(*a2, **k))
+            SCHED.trace.append([-1, len(tasks), "inline"])
+            return out
         workers = [_Worker(i, self) for i in range(n)]
         for w in workers:
             w.thread.start()
@@ -281,8 +349,10 @@ class SimParallel:
         return n
 
 
-def install(modules):
-    """Replace joblib's Parallel/delayed (module globals) with the simulator's."""
+def install(modules, watch=()):
+    """Replace joblib's Parallel/delayed (module globals) with the simulator's; `watch` lists the
+    modules whose mutable globals are process-local state of the simulated workers."""
+    _snapshot_import_state(list(watch))
     for m in modules:
         if "Parallel" in m.__dict__:
             m.__dict__["Parallel"] = SimParallel
